@@ -950,8 +950,8 @@ func isolatedTest(cfg driveCfg, n int, ref []string, st *SelfTest) {
 	eng := engines[cfg.prop]
 	seed := Mix(cfg.seed, 0x5e1f)
 	step := 1
-	if n > 60 {
-		step = n / 60
+	if n > 400 {
+		step = n / 400
 	}
 	type res struct {
 		idx  int
